@@ -175,7 +175,7 @@ Section Steps2.
     match map r_e (filter r_hasC rs) with
     | [] => e_top
     | [x] => x
-    | a => e_other (matchN_eq nitems a)
+    | a => e_other (matchN_eq (length a) a)
     end.
   Definition allOf_K (K : mask) (rs : list result) : mask :=
     match filter r_hasC rs with
@@ -189,10 +189,9 @@ Section Steps2.
     intros n rs A' st. unfold step_allOf, allOf_e, allOf_K.
     set (s1 := if Nat.eqb n 0 then set_bad st else st).
     set (s2 := absorb_all rs s1).
-    set (s3 := dev_if _ DEV_allOf_false s2).
-    set (s4 := dev_if _ DEV_allOf_count s3).
+    set (s4 := dev_if _ DEV_allOf_false s2).
     assert (E : sem_eq st s4).
-    { eapply sem_eq_trans; [|apply sem_eq_dev_if]. eapply sem_eq_trans; [|apply sem_eq_dev_if].
+    { eapply sem_eq_trans; [|apply sem_eq_dev_if].
       eapply sem_eq_trans; [|apply sem_eq_absorb_all]. unfold s1. destruct (Nat.eqb n 0); [apply sem_eq_set_bad|apply sem_eq_refl]. }
     destruct E as (a & b & c & d & e & f & g).
     unfold upd, add_all.
@@ -206,35 +205,32 @@ Section Steps2.
 
   Lemma dev_step_allOf : forall n rs A' st, st_dev (step_allOf n rs A' st) = [] ->
     st_dev st = [] /\ flat_map r_dev rs = [] /\
-    existsb (fun r => is_err (r_e r) && negb (r_hasC r) && negb (mempty (r_A r))) rs = false /\
-    (Nat.leb 2 (length (filter r_hasC rs)) && negb (Nat.eqb (length (filter r_hasC rs)) n)) = false.
+    existsb (fun r => is_err (r_e r) && negb (r_hasC r) && negb (mempty (r_A r))) rs = false.
   Proof.
     intros n rs A' st. unfold step_allOf.
     set (s1 := if Nat.eqb n 0 then set_bad st else st).
     assert (D1 : st_dev s1 = st_dev st) by (unfold s1; destruct (Nat.eqb n 0); reflexivity).
-    set (c1 := existsb _ rs). set (c2 := Nat.leb 2 _ && _).
-    set (s4 := dev_if c2 DEV_allOf_count (dev_if c1 DEV_allOf_false (absorb_all rs s1))).
-    assert (D4 : st_dev s4 = st_dev st ++ flat_map r_dev rs ++ (if c1 then [DEV_allOf_false] else []) ++ (if c2 then [DEV_allOf_count] else [])).
+    set (c1 := existsb _ rs).
+    set (s4 := dev_if c1 DEV_allOf_false (absorb_all rs s1)).
+    assert (D4 : st_dev s4 = st_dev st ++ flat_map r_dev rs ++ (if c1 then [DEV_allOf_false] else [])).
     { unfold s4. rewrite !dev_dev_if, dev_absorb_all, D1. rewrite <- !app_assoc. reflexivity. }
     assert (D : st_dev (match map r_e (filter r_hasC rs) with
                         | [] => set_A s4 A'
                         | [x] => add_all (set_K (set_A s4 A') (mand (st_K (set_A s4 A')) (fold_left (fun m r => mor m (r_K r)) (filter r_hasC rs) mnone))) x
-                        | _ => add_all (set_K (set_A s4 A') (mand (st_K (set_A s4 A')) (fold_left (fun m r => mor m (r_K r)) (filter r_hasC rs) mnone))) (e_other (matchN_eq n (map r_e (filter r_hasC rs))))
+                        | _ => add_all (set_K (set_A s4 A') (mand (st_K (set_A s4 A')) (fold_left (fun m r => mor m (r_K r)) (filter r_hasC rs) mnone))) (e_other (matchN_eq (length (map r_e (filter r_hasC rs))) (map r_e (filter r_hasC rs))))
                         end) = st_dev s4).
     { destruct (map r_e (filter r_hasC rs)) as [|x [|y t]]; simpl; auto.
       unfold add_all. destruct (is_top x); reflexivity. }
     intros Hnil. change (st_dev (match map r_e (filter r_hasC rs) with
                         | [] => set_A s4 A'
                         | [x] => add_all (set_K (set_A s4 A') (mand (st_K (set_A s4 A')) (fold_left (fun m r => mor m (r_K r)) (filter r_hasC rs) mnone))) x
-                        | _ => add_all (set_K (set_A s4 A') (mand (st_K (set_A s4 A')) (fold_left (fun m r => mor m (r_K r)) (filter r_hasC rs) mnone))) (e_other (matchN_eq n (map r_e (filter r_hasC rs))))
+                        | _ => add_all (set_K (set_A s4 A') (mand (st_K (set_A s4 A')) (fold_left (fun m r => mor m (r_K r)) (filter r_hasC rs) mnone))) (e_other (matchN_eq (length (map r_e (filter r_hasC rs))) (map r_e (filter r_hasC rs))))
                         end) = []) in Hnil.
     rewrite D, D4 in Hnil.
     apply app_eq_nil in Hnil. destruct Hnil as [N1 N2].
     apply app_eq_nil in N2. destruct N2 as [N2 N3].
-    apply app_eq_nil in N3. destruct N3 as [N3 N4].
     repeat split; auto.
-    - destruct c1; [discriminate | reflexivity].
-    - destruct c2; [discriminate | reflexivity].
+    destruct c1; [discriminate | reflexivity].
   Qed.
 
   Lemma run_in : forall A l rs A', Run A l rs A' -> forall r, In r rs ->
@@ -284,10 +280,9 @@ Section Steps2.
   Lemma inv_step_allOf : forall l rs A' st VS,
     Inv T st VS -> Run (st_A st) l rs A' ->
     existsb (fun r => is_err (r_e r) && negb (r_hasC r) && negb (mempty (r_A r))) rs = false ->
-    (Nat.leb 2 (length (filter r_hasC rs)) && negb (Nat.eqb (length (filter r_hasC rs)) (length l))) = false ->
     Inv T (step_allOf (length l) rs A' st) (fun v => VS v /\ forallb (fun s' => valid re s' v) l = true).
   Proof.
-    intros l rs A' st VS H R Hd1 Hd2.
+    intros l rs A' st VS H R Hd1.
     eapply inv_sem_eq; [apply step_allOf_eq|].
     set (n := length l). set (kept := filter r_hasC rs).
     assert (Hkept : forall r, In r kept <-> In r rs /\ r_hasC r = true) by (intros; apply filter_In).
@@ -297,12 +292,6 @@ Section Steps2.
       rewrite andb_true_r in X. exact X. }
     assert (Hwf : forall r, In r rs -> wfe (r_e r)).
     { intros r Hin. destruct (run_in _ _ _ _ R r Hin) as (s0 & Ai & G & _). apply (g_wfe _ _ _ G). }
-    assert (Hlen2 : forall x y t, map r_e kept = x :: y :: t -> length (map r_e kept) = n).
-    { intros x y t E. rewrite map_length. fold kept in Hd2.
-      assert (2 <= length kept) by (rewrite <- (map_length r_e), E; simpl; lia).
-      apply andb_false_iff in Hd2. destruct Hd2 as [X | X].
-      - apply Nat.leb_gt in X. lia.
-      - apply negb_false_iff in X. apply Nat.eqb_eq in X. exact X. }
     (* E1 *)
     assert (E1 : forall v, ev (allOf_e n rs) v = true -> forall r, In r rs -> ev (r_e r) v = true \/ transparent r).
     { intros v He r Hin. destruct (r_hasC r) eqn:Hh; [|right; apply Htr; auto]. left.
@@ -311,8 +300,8 @@ Section Steps2.
       destruct (map r_e kept) as [|x [|y t]] eqn:Em.
       - destruct Hk.
       - destruct Hk as [<- | []]. exact He.
-      - simpl in He. unfold matchN_eq, cnt in He. apply Nat.eqb_eq in He.
-        rewrite <- (Hlen2 _ _ _ eq_refl) in He. apply count_all in He.
+      - cbn [ev e_other] in He. unfold matchN_eq, cnt in He. apply Nat.eqb_eq in He.
+        apply count_all in He.
         rewrite forallb_forall in He. apply He. exact Hk. }
     (* E2 *)
     assert (E2 : forall v, (forall r, In r rs -> ev (r_e r) v = true) -> ev (allOf_e n rs) v = true).
@@ -322,7 +311,7 @@ Section Steps2.
       destruct (map r_e kept) as [|x [|y t]] eqn:Em.
       - reflexivity.
       - simpl in Hall'. rewrite andb_true_r in Hall'. exact Hall'.
-      - simpl. unfold matchN_eq, cnt. apply Nat.eqb_eq. rewrite <- (Hlen2 _ _ _ eq_refl).
+      - cbn [ev e_other]. unfold matchN_eq, cnt. apply Nat.eqb_eq.
         apply count_all. exact Hall'. }
     assert (Wf : wfe (allOf_e n rs)).
     { unfold allOf_e. fold kept. destruct (map r_e kept) as [|x [|y t]] eqn:Em.
